@@ -296,13 +296,12 @@ theorem executeUod_spec {s : State} (h : Core s) (hfix : s.cfg.fixCancel = true)
       -- the parser rejects the arguments: the request is done and fails; nothing is initialised
       simp only [↓reduceIte]
       apply wrap
-      generalize hS : ({ s2 with stale := if (staleOwner s2.stale k).isSome = true then s2.stale
-          else s2.stale ++ [(k, r.id)] } : State) = sS
-      have hSo : sS.objs = s2.objs := by rw [← hS]
-      have hSe : sS.events = s2.events := by rw [← hS]
-      have hSx : sS.executing = s2.executing := by rw [← hS]
-      have hSd : sS.done = s2.done := by rw [← hS]
-      have hSc : sS.cfg = s2.cfg := by rw [← hS]
+      generalize hS : keepStale s2 k r.id = sS
+      have hSo : sS.objs = s2.objs := by rw [← hS]; rfl
+      have hSe : sS.events = s2.events := by rw [← hS]; rfl
+      have hSx : sS.executing = s2.executing := by rw [← hS]; rfl
+      have hSd : sS.done = s2.done := by rw [← hS]; rfl
+      have hSc : sS.cfg = s2.cfg := by rw [← hS]; rfl
       have hSv : view sS = view s2 := by rw [← hS]; rfl
       have hdn : ∀ i, i ∈ (markDone sS r).done ↔ i ∈ s2.done ∨ i = r.id := by
         intro i
@@ -335,29 +334,30 @@ theorem executeUod_spec {s : State} (h : Core s) (hfix : s.cfg.fixCancel = true)
       -- the instance (new, or created earlier and never initialised) is initialised now
       simp only [Bool.false_eq_true, ↓reduceIte]
       apply wrap
-      generalize hc0 : (⟨k, s2.objs.length, (staleOwner s2.stale k).getD r.id, 0, true, false, false, false, true⟩ : Cmd) = c0
-      have hser : c0.serial = s2.objs.length := by rw [← hc0]
-      rw [← hser]
-      generalize hN : ({ s2 with objs := s2.objs ++ [c0], stale := dropStale s2.stale k,
-          events := s2.events ++ [.init c0.serial] } : State) = sN
-      have hNo : sN.objs = s2.objs ++ [c0] := by rw [← hN]
-      have hNe : sN.events = s2.events ++ [.init c0.serial] := by rw [← hN]
-      have hNx : sN.executing = s2.executing := by rw [← hN]
-      have hNd : sN.done = s2.done := by rw [← hN]
-      have hNc : sN.cfg = s2.cfg := by rw [← hN]
-      have hNv : view sN = view s2 := by rw [← hN]; rfl
+      have hser : (initNew s2 k r.id).2.serial = s2.objs.length := rfl
+      have hNo : (initNew s2 k r.id).1.objs = s2.objs ++ [(initNew s2 k r.id).2] := rfl
+      have hNe : (initNew s2 k r.id).1.events = s2.events ++ [.init (initNew s2 k r.id).2.serial] := rfl
+      have hNx : (initNew s2 k r.id).1.executing = s2.executing := rfl
+      have hNd : (initNew s2 k r.id).1.done = s2.done := rfl
+      have hNc : (initNew s2 k r.id).1.cfg = s2.cfg := rfl
+      have hNv : view (initNew s2 k r.id).1 = view s2 := rfl
+      have hc0n : (initNew s2 k r.id).2.name = k := rfl
+      have hc0m : (initNew s2 k r.id).2.inMap = true := rfl
+      have hc0f : (initNew s2 k r.id).2.finalized = false := rfl
+      have hc0i : (initNew s2 k r.id).2.initialized = true := rfl
+      have hc0t : (initNew s2 k r.id).2.iters = 0 := rfl
+      generalize (initNew s2 k r.id).2 = c0 at *
+      generalize (initNew s2 k r.id).1 = sN at *
       have hcN : Core sN := by
-        apply p2.core.spawn (c := c0) (r := r) hNo hser (by rw [← hc0]) (by rw [← hc0]) (by rw [← hc0])
-          (by rw [← hc0]) hr2 (by rw [hk, ← hc0]) hb hrd2 hNe hNx hNc hNd
+        apply p2.core.spawn (c := c0) (r := r) hNo hser hc0m hc0f hc0i hc0t hr2 (by rw [hk, hc0n]) hb hrd2 hNe hNx hNc hNd
         intro o ho hm
         cases hcf : conflict s2.cfg o.name c0.name with
         | false => rfl
         | true =>
-          have : c0.name = k := by rw [← hc0]
-          rw [this, hcfg2] at hcf
+          rw [hc0n, hcfg2] at hcf
           exact absurd (hhold o ho hm hcf).1 (hnone o ho hm)
       have p := runCmd_live (c := c0) hcN (by rw [hNc]; exact hfix2) (htr2.of_view hNv) (by rw [hNx]; exact hr2) hk
-        (by rw [hNo]; simp) (by rw [← hc0]) (by rw [← hc0])
+        (by rw [hNo]; simp) hc0m hc0n
       obtain ⟨evs, e1, e2⟩ := p.evs
       refine ⟨p.core, by rw [p.view, hNv], fun i hi => p.doneGrow i (by rw [hNd]; exact hi),
         fun i hi => by rw [← hNd]; exact p.doneOnly i hi, [.init c0.serial] ++ evs, by rw [e1, hNe]; simp, ?_⟩
